@@ -106,7 +106,7 @@ def build(extra_mods=(), force_assumed=()):
         if os.path.exists(gp):
             ghost += '\n// ---- ghost additions (G1) from spec/mod_%s.vrs\n' % m + open(gp).read()
         globs = ''.join('use crate::%s::*;\n' % o for o in mods if o != m)
-        chunks.append('pub mod %s {\nuse vstd::prelude::*;\nuse crate::iso::*;\n%sverus! {\n%s\n%s\n}\n}\n' % (m, globs, spliced, ghost))
+        chunks.append('pub mod %s {\nuse vstd::prelude::*;\nuse crate::iso::*;\n%sverus! {\n%s\n%s\n}\n} // @endmod\n' % (m, globs, spliced, ghost))
     chunks.append('verus! {\n' + open(os.path.join(VERIF, 'spec', 'prelude.vrs')).read() + '\n}\nfn main() {}\n')
     text = ''.join(chunks)
     if not insertion_only:
@@ -147,7 +147,9 @@ def line_index(text):
     import bisect
     for mm in re.finditer(r'^pub mod (\w+) \{$', text, flags=re.M):
         name = mm.group(1)
-        end = text.find('\n}\n}\n', mm.end())
+        end = text.find('\n}\n} // @endmod', mm.end())
+        if end < 0:
+            continue
         seg = text[mm.end():end]
         fns, _ = index_functions(seg)
         for q, (kw, bo, bc) in fns.items():
